@@ -293,7 +293,9 @@ private theorem czRow_length (arr : List (List R)) (D : Nat) (hD : ∀ r ∈ arr
     rw [List.getD_eq_getElem?_getD, List.getElem?_eq_getElem hp]
     exact hD _ (List.getElem_mem _)
   rw [czRow_eq arr t h]
-  split <;> simp only [zeroRow, List.length_map] <;> exact hl
+  split
+  · simp only [zeroRow, List.length_map]; exact hl
+  · exact hl
 
 private theorem inRange_control_of {T : Nat} {t : Int} (h : inRange T t = true) : inRange T (-1) = true := by
   simp only [inRange, Bool.and_eq_true, decide_eq_true_eq] at h ⊢
@@ -408,5 +410,223 @@ theorem C09_control_neutral_interaction_viability (θ : ThetaI ℝ) (s t : Int) 
   simp only [swap] at h1 h2
   simp only [interactionViabilityRow?] at first ⊢
   rw [h1, h2]; exact first
+
+/-- the hypotheses of section 4 are satisfiable by a non-trivial sample (T = 2, D = 2), and the
+    statement has content there: `(0, 1, control)`, `(0, control, 1)` and the single agent all give 47 -/
+def exampleTheta : Theta Int :=
+  { W := [[1, 2]], W0 := [10], V2 := [[1, 1], [2, 3]], V1 := [[5, 6], [7, 8]], V0 := [3, 4], alpha := 100, precision := 2 }
+
+example : Shaped exampleTheta 2 2 := ⟨rfl, rfl, rfl, by decide⟩
+example : predictRow? exampleTheta ⟨0, 1, -1⟩ = some 137 ∧ predictRow? exampleTheta ⟨0, -1, 1⟩ = some 137
+    ∧ predictSingleRow? exampleTheta ⟨0, 1⟩ = some 137 ∧ predictRow? exampleTheta ⟨0, 1, 0⟩ = some 165
+    ∧ predictRow? exampleTheta ⟨0, -1, -1⟩ = some 110 ∧ predictRow? exampleTheta ⟨0, 2, 0⟩ = none := by decide
+
+/-! ## 5. viability range, variance -/
+
+section range
+variable {R : Type} [Field R] [LinearOrder R] [IsStrictOrderedRing R] [ExpLog R]
+
+/-- every viability either sample type returns lies in `[0.01, 0.99]` -- whatever the parameters,
+    the ids, and whatever `exp`/`log` are -/
+theorem C09_viability_range (θ : Theta R) (θi : ThetaI R) (rows : List Row) (rows1 : List Row1) (vs : List R)
+    (h : predictViability θ rows = some vs ∨ predictSingleViability θ rows1 = some vs
+          ∨ interactionViability θi rows = .ok vs) :
+    ∀ v ∈ vs, (1 / 100 : R) ≤ v ∧ v ≤ 99 / 100 := by
+  have hc : ∀ x : R, (1 / 100 : R) ≤ clip clipLo clipHi x ∧ clip clipLo clipHi x ≤ 99 / 100 := by
+    intro x
+    have := clip_mem (clipLo : R) clipHi x clipLo_le_clipHi
+    exact ⟨by rw [← clipLo_eq (R := R)]; exact this.1, by rw [← clipHi_eq (R := R)]; exact this.2⟩
+  intro v hv
+  rcases h with h | h | h
+  · unfold predictViability at h
+    cases hm : predictMean θ rows with
+    | none => simp [hm] at h
+    | some mu =>
+      simp only [hm, Option.map_some, Option.some.injEq] at h
+      subst h
+      obtain ⟨m, _, rfl⟩ := List.mem_map.mp hv
+      exact hc _
+  · unfold predictSingleViability at h
+    cases hm : predictSingleMean θ rows1 with
+    | none => simp [hm] at h
+    | some mu =>
+      simp only [hm, Option.map_some, Option.some.injEq] at h
+      subst h
+      obtain ⟨m, _, rfl⟩ := List.mem_map.mp hv
+      exact hc _
+  · unfold interactionViability at h
+    cases hm : interactionMean θi rows with
+    | none => simp [hm] at h
+    | some inter =>
+      cases hp : rows.mapM (singleProduct? θi) with
+      | none => simp [hm, hp] at h
+      | some prods =>
+        simp only [hm, hp, Except.ok.injEq] at h
+        subst h
+        obtain ⟨i, hi, rfl⟩ := List.mem_iff_getElem.mp hv
+        simp only [List.getElem_zipWith, interactionViabilityCell]
+        exact hc _
+
+omit [ExpLog R] in
+/-- the conditional variance of either sample type: one entry per experiment, each equal to
+    `1 / precision`, positive whenever the precision is -/
+theorem C09_variance (θ : Theta R) (θi : ThetaI R) (sc : PScreen) :
+    (∃ v, θ.predictConditionalVariance sc = .ok v ∧ v.length = sc.size ∧ ∀ x ∈ v, x = 1 / θ.precision ∧ (0 < θ.precision → 0 < x))
+    ∧ (∃ v, θi.predictConditionalVariance sc = .ok v ∧ v.length = sc.size ∧ ∀ x ∈ v, x = 1 / θi.precision ∧ (0 < θi.precision → 0 < x)) := by
+  constructor
+  · refine ⟨_, rfl, by simp [varianceVec], ?_⟩
+    intro x hx
+    have := List.eq_of_mem_replicate hx
+    subst this
+    exact ⟨rfl, fun hp => one_div_pos.mpr hp⟩
+  · refine ⟨_, rfl, by simp [varianceVec], ?_⟩
+    intro x hx
+    have := List.eq_of_mem_replicate hx
+    subst this
+    exact ⟨rfl, fun hp => one_div_pos.mpr hp⟩
+
+end range
+
+/-! ## 6. `predict_*_all`, `predict_*_avg` -/
+
+section holder
+open Batchie.Proto
+variable {R Θ : Type}
+
+private theorem predictChecked_ok (nan : R → Bool) (f : Θ → Except Err (List R)) (thetas : List Θ) (i : Nat)
+    (p : List R) (h : predictChecked nan f thetas i = .ok p) :
+    ∃ θ, thetas[i]? = some θ ∧ f θ = .ok p ∧ p.any nan = false := by
+  unfold predictChecked getTheta at h
+  cases ht : thetas[i]? with
+  | none => simp [ht, bind, Except.bind] at h
+  | some θ =>
+    cases hf : f θ with
+    | error e => simp [ht, hf, bind, Except.bind] at h
+    | ok q =>
+      simp only [ht, hf, bind, Except.bind, pure, Except.pure] at h
+      split at h
+      · cases h
+      · rename_i hn
+        cases h
+        exact ⟨θ, rfl, hf, by simpa using hn⟩
+
+/-- the stacked helpers return one row per posterior sample, in holder order: row `i` is sample
+    `i`'s own prediction (and no NaN-flagged cell got through) -/
+theorem C09_all_rows (nan : R → Bool) (f : Θ → Except Err (List R)) (n : Nat) (thetas : List Θ)
+    (P : List (List R)) (h : predictAll nan f n thetas = .ok P) :
+    P.length = n ∧ ∀ i, i < n → ∃ θ, thetas[i]? = some θ ∧ f θ = .ok (P.getD i []) ∧ (P.getD i []).any nan = false := by
+  unfold predictAll at h
+  have hl := exMapM_length _ _ _ h
+  simp only [List.length_range] at hl
+  refine ⟨hl, ?_⟩
+  intro i hi
+  obtain ⟨hy, e⟩ := exMapM_getElem _ _ _ h i (by simpa using hi)
+  simp only [List.getElem_range] at e
+  have : P.getD i [] = P[i] := by simp [List.getD_eq_getElem?_getD, hy]
+  rw [this]
+  exact predictChecked_ok nan f thetas i _ e
+
+/-- `predict_variance_all` is the same stack, and refuses an empty holder -/
+theorem C09_variance_all_rows (nan : R → Bool) (f : Θ → Except Err (List R)) (n : Nat) (thetas : List Θ)
+    (P : List (List R)) (h : predictVarianceAll nan f n thetas = .ok P) :
+    n ≠ 0 ∧ predictAll nan f n thetas = .ok P := by
+  unfold predictVarianceAll at h
+  cases hp : predictAll nan f n thetas with
+  | error e => simp [hp, bind, Except.bind] at h
+  | ok Q =>
+    simp only [hp, bind, Except.bind, pure, Except.pure] at h
+    split at h
+    · cases h
+    · rename_i hne
+      cases h
+      refine ⟨?_, rfl⟩
+      rintro rfl
+      have := (C09_all_rows nan f 0 thetas _ hp).1
+      simp [List.length_eq_zero_iff.mp this] at hne
+
+end holder
+
+section avg
+open Batchie.Proto
+variable {R Θ : Type} [Field R]
+
+/-- per-experiment mean over the rows of the stack -/
+def colMeans (size n : Nat) (P : List (List R)) : List R :=
+  (List.range size).map (fun j => (P.map (fun p => p.getD j 0)).sum / (n : R))
+
+/-- The averaged helpers (`result = zeros; result = result + sub_result; result / n_thetas`) return,
+    for every experiment, exactly the arithmetic mean over the samples of the stacked predictions --
+    and fail exactly when the stack fails. -/
+theorem C09_avg_is_mean (nan : R → Bool) (f : Θ → Except Err (List R)) (size n : Nat) (thetas : List Θ)
+    (hlen : ∀ θ p, f θ = .ok p → p.length = size) :
+    predictAvg nan f size n thetas = (predictAll nan f n thetas).map (colMeans size n) := by
+  unfold predictAvg
+  rw [exFoldlM_eq_mapM (predictChecked nan f thetas) vadd]
+  cases hP : predictAll nan f n thetas with
+  | error e =>
+    unfold predictAll at hP
+    simp [hP, Except.map, bind, Except.bind]
+  | ok P =>
+    have hrows := C09_all_rows nan f n thetas P hP
+    unfold predictAll at hP
+    simp only [hP, Except.map, bind, Except.bind, pure, Except.pure]
+    congr 1
+    have hPl : ∀ p ∈ P, p.length = size := by
+      intro p hp
+      obtain ⟨i, hi, rfl⟩ := List.mem_iff_getElem.mp hp
+      obtain ⟨θ, _, hf, _⟩ := hrows.2 i (by rw [← hrows.1]; exact hi)
+      have : P.getD i [] = P[i] := by simp [List.getD_eq_getElem?_getD, hi]
+      rw [this] at hf
+      exact hlen θ _ hf
+    have hL := foldl_vadd_length P (List.replicate size (0 : R)) size (by simp) hPl
+    apply List.ext_getElem
+    · simp [colMeans, hL]
+    · intro j h1 h2
+      have hj : j < size := by simpa [hL] using h1
+      have hg := foldl_vadd_getD P (List.replicate size (0 : R)) size (by simp) hPl j hj
+      have e1 : (List.foldl vadd (List.replicate size (0 : R)) P)[j]'(by rw [hL]; exact hj)
+          = (List.foldl vadd (List.replicate size (0 : R)) P).getD j 0 := by
+        simp [List.getD_eq_getElem?_getD, hL, hj]
+      simp only [List.getElem_map, colMeans, List.getElem_range, e1, hg]
+      simp [List.getD_eq_getElem?_getD, hj, OfCount.ofCount]
+
+end avg
+
+/-- `hlen` of `C09_avg_is_mean` holds for the prediction methods of both sample types on every
+    well-formed screen (as many id rows as sample ids): predictions have one entry per experiment -/
+theorem C09_prediction_length {R : Type} [Field R] [LinearOrder R] [ExpLog R] (θ : Theta R) (θi : ThetaI R)
+    (sc : PScreen) (hsc : sc.tids.length = sc.sids.length) (p : List R)
+    (h : θ.predictConditionalMean sc = .ok p ∨ θ.predictViabilityM sc = .ok p
+          ∨ θi.predictConditionalMean sc = .ok p ∨ θi.predictViabilityM sc = .ok p) :
+    p.length = sc.size := by
+  have l2 : sc.rows2.length = sc.size := by simp [PScreen.rows2, PScreen.size, hsc]
+  have l1 : sc.rows1.length = sc.size := by simp [PScreen.rows1, PScreen.size, hsc]
+  have opt : ∀ {o : Option (List R)} {q : List R}, optIdx o = .ok q → o = some q := by
+    intro o q ho; cases o with
+    | none => cases ho
+    | some x => simp only [optIdx, Except.ok.injEq] at ho; rw [ho]
+  rcases h with h | h | h | h
+  · unfold Theta.predictConditionalMean at h
+    split at h
+    · have := opt h; rw [predictSingleMean_rowwise] at this; rw [mapM_length _ _ _ this, l1]
+    · split at h
+      · have := opt h; rw [predictMean_rowwise] at this; rw [mapM_length _ _ _ this, l2]
+      · cases h
+  · unfold Theta.predictViabilityM at h
+    split at h
+    · have := opt h; rw [(C09_rowwise_viability θ θi).2.1] at this; rw [mapM_length _ _ _ this, l1]
+    · split at h
+      · have := opt h; rw [(C09_rowwise_viability θ θi).1] at this; rw [mapM_length _ _ _ this, l2]
+      · cases h
+  · unfold ThetaI.predictConditionalMean at h
+    split at h
+    · have := opt h; rw [interactionMean_rowwise] at this; rw [mapM_length _ _ _ this, l2]
+    · cases h
+  · unfold ThetaI.predictViabilityM at h
+    split at h
+    · have hr := (C09_rowwise_viability θ θi).2.2 sc.rows2
+      simp only [h, Except.toOption] at hr
+      rw [mapM_length _ _ _ hr.symm, l2]
+    · cases h
 
 end Batchie.Props.C09
